@@ -74,7 +74,7 @@ class Client:
 
     def req(self, method, path, query=None, body=b"", headers=None, sign=True, secret=None, raw_path=None,
             payload_hash=None, tamper=None, now=None, region=None, service="s3", access=None, raw_query=None,
-            send_body=None, timeout=20, content_length=None):
+            send_body=None, timeout=20, content_length=None, pre_headers=None):
         """path: decoded path (str or bytes); query: list of (k, v) or dict. Returns Resp.
         tamper(headers) is applied after signing; send_body overrides the bytes put on the wire."""
         headers = dict(headers or {})
@@ -96,7 +96,7 @@ class Client:
         q = raw_query if raw_query is not None else cq
         if q:
             url += "?" + q
-        return self.raw(method, url, headers, wire, timeout=timeout, content_length=content_length)
+        return self.raw(method, url, headers, wire, timeout=timeout, content_length=content_length, pre_headers=pre_headers)
 
     def req_streaming(self, method, path, make_body, query=None, headers=None, payload_type="STREAMING-AWS4-HMAC-SHA256-PAYLOAD",
                       secret=None, tamper=None, timeout=30):
@@ -117,7 +117,7 @@ class Client:
         url = cpath + ("?" + cq if cq else "")
         return self.raw(method, url, headers, body, timeout=timeout), sig
 
-    def raw(self, method, url, headers, wire=b"", timeout=20, content_length=None):
+    def raw(self, method, url, headers, wire=b"", timeout=20, content_length=None, pre_headers=None):
         cls = http.client.HTTPSConnection if self.tls else http.client.HTTPConnection
         kw = {}
         if self.tls:
@@ -126,6 +126,8 @@ class Client:
         conn = cls(self.host, self.port, timeout=timeout, **kw)
         try:
             conn.putrequest(method, url, skip_host=True, skip_accept_encoding=True)
+            for k, v in (pre_headers or []):
+                conn.putheader(k, v)
             for k, v in headers.items():
                 conn.putheader(k, v)
             if content_length is not None:
@@ -139,12 +141,14 @@ class Client:
             data = r.read()
             rr = Resp(r.status, r.getheaders(), data)
             rr.wire = wire
+            rr.sent_headers = dict(headers)
             return rr
         except (OSError, http.client.HTTPException) as e:
             # connection refused / reset / closed without a response: an observation, not a harness error
             rr = Resp(-1, [], b"")
             rr.error = repr(e)
             rr.wire = wire
+            rr.sent_headers = dict(headers)
             return rr
         finally:
             conn.close()
